@@ -83,8 +83,16 @@ func main() {
 		if fs.Kind != "func" || fs.Inline {
 			continue // inline contracts (closures with loop invariants) are verified where they are executed
 		}
-		if *fnFilter != "" && !strings.Contains(k, *fnFilter) {
-			continue
+		if *fnFilter != "" {
+			hit := false
+			for _, alt := range strings.Split(*fnFilter, "|") {
+				if alt != "" && strings.Contains(k, alt) {
+					hit = true
+				}
+			}
+			if !hit {
+				continue
+			}
 		}
 		if *prop == "" || funcHasProp(fs, *prop) {
 			keys = append(keys, k)
